@@ -70,6 +70,8 @@ func (e *LEnt) name() string {
 		return fmt.Sprintf("BK%d", e.ID)
 	case "proc":
 		return fmt.Sprintf("P%d", e.ID)
+	case "fvar":
+		return fmt.Sprintf("OT%d", e.ID)
 	}
 	return fmt.Sprintf("F%d", e.ID)
 }
@@ -101,6 +103,11 @@ func (w *LiveWorld) EntLine(e *LEnt, v int) string {
 			return fmt.Sprintf("var %s int = %d%s", e.name(), t, trailer) // typed declaration with initialiser
 		}
 		return fmt.Sprintf("var %s = %d%s", e.name(), t, trailer)
+	}
+	if e.Kind == "fvar" {
+		// a package variable of function type, initialised with a function literal: every load makes
+		// a new function value; scripts and the host's Call by name must both reach it
+		return fmt.Sprintf("var %s = func() int { return %d }%s", e.name(), t, trailer)
 	}
 	if e.Kind == "proc" {
 		// a function without result that records its version in a package variable of the
@@ -214,7 +221,7 @@ func (w *LiveWorld) EntFile(pkg, file, v int) string {
 	for pass := 0; pass < 2; pass++ {
 		for i := range w.Ents {
 			e := &w.Ents[i]
-			isVar := e.Kind == "ivar" || e.Kind == "zvar" || e.Kind == "bulk"
+			isVar := e.Kind == "ivar" || e.Kind == "zvar" || e.Kind == "bulk" || e.Kind == "fvar"
 			if e.Pkg == pkg && e.File == file && isVar == (pass == 0) {
 				b.WriteString(w.EntLine(e, v) + "\n")
 			}
@@ -247,6 +254,9 @@ func (w *LiveWorld) Infra(pkg int) string {
 		}
 	}
 	if pkg != 0 {
+		ln("var UP int")
+		ln("func Early() { print(7) }") // above the package's own print, as in package main
+		ln("func print(a int) { UP = UP + a }")
 		ln("var N int")
 		ln("func init() { N = N + 1 }")
 		return b.String()
@@ -262,6 +272,9 @@ func (w *LiveWorld) Infra(pkg int) string {
 		ln("type T%d struct { A int; B string; W0 int; W1 int; W2 int; W3 int; W4 int; W5 int; W6 int; W7 int; W8 int; W9 int }", t)
 		ln("var P%d *T%d", t, t)
 	}
+	// a package function that has a builtin's name, called from a function that stands ABOVE it
+	ln("func early() { print(7) }")
+	ln("func print(a int) { host.Obs(\"up\", 0, a) }")
 	ln("func nz(x any) int { if x == nil { return 0 }; return 1 }")
 	ln("type Holder struct { F func() int }")
 	ln("type HolderV struct { F func(...int) int }")
@@ -329,6 +342,8 @@ func (w *LiveWorld) Infra(pkg int) string {
 	for i := range w.Ents {
 		e := &w.Ents[i]
 		switch e.Kind {
+		case "fvar":
+			ln("\thost.Obs(\"d\", %d, %s())", e.ID, w.ref(e, 0))
 		case "func":
 			ln("\thost.Obs(\"d\", %d, %s(%s))", e.ID, w.ref(e, 0), map[bool]string{false: "", true: "7, 8"}[e.Variadic && e.ID%2 == 0])
 		case "ivar":
@@ -372,6 +387,13 @@ func (w *LiveWorld) Infra(pkg int) string {
 		// how a value of an unchanged type prints: a fresh instance, and the instance made before the reloads
 		ln("\thost.Obs(\"pr\", %d, len(fmt.Sprint(&T%d{A: 7, B: \"x\"})))", t, t)
 		ln("\tif P%d != nil { host.Obs(\"pr\", %d, len(fmt.Sprint(P%d))) }", t, 100+t, t)
+	}
+	ln("\thost.Obs(\"eb\", 0, 0)")
+	ln("\tearly()")
+	ln("\thost.Obs(\"ee\", 0, 0)")
+	for p := 1; p < len(w.Pkgs); p++ {
+		ln("\t%s.Early()", w.pkgAlias(p))
+		ln("\thost.Obs(\"le\", %d, %s.UP)", p, w.pkgAlias(p))
 	}
 	ln("\thost.Obs(\"st\", 0, S)")
 	ln("\thost.Obs(\"sa\", 0, SA)")
@@ -490,6 +512,10 @@ func GenLiveWorld(r *core.PRNG) *LiveWorld {
 			}
 			w.Ents = append(w.Ents, e)
 			funcs = append(funcs, id)
+		}
+		if r.Chance(1, 4) {
+			id++
+			w.Ents = append(w.Ents, LEnt{ID: id, Kind: "fvar", Pkg: p, File: r.Intn(w.Pkgs[p].NFiles)})
 		}
 		if r.Chance(1, 3) {
 			id++
